@@ -31,7 +31,10 @@ META = {
                   "or an error make a run fail or leave its list unchanged (build_list_fails_or_same); with the damage the "
                   "cache can suffer from outside dawn added to the world, a returned call still answers with the project's "
                   "configuration or an error (resolve_via_damaged_cache), so Load fails or Project.buildList is the MVS "
-                  "solution (load_fails_or_solution). The repository lookup answers what a memo miss computes whatever "
+                  "solution (load_fails_or_solution); the same for the root project read from its own two files, whatever a "
+                  "left-over .dawnconfig next to its dawn.toml holds (load_root_fails_or_solution, Mvs/LoadRoot.v; the loadConfig "
+                  "of before 15786e0, which let the error of the load decide, is refuted: load_root_former_refuted). "
+                  "The repository lookup answers what a memo miss computes whatever "
                   "the resolver looked up before (find_repository_order_independent) and the answer joins to the looked-up "
                   "path (find_repository_sound). On the version strings themselves: no two different strings the "
                   "configuration gate admits are of equal precedence (admitted_versions_never_tie; admitted_version_spelling), "
@@ -401,8 +404,7 @@ def load_family(ctx, lrecs, crecs, rc, o):
              "root_config_file": f["root_config_file"], "left_over_dawnconfig_of_the_root": f.get("left_over_dawnconfig"),
              "cache_state": fault or "intact: every reachable project version is in "
              "the cache, as the real resolver downloaded it", "got": f["got"], "want": f["want"],
-             "error_text": f.get("error_text", ""), "how": how + "; exported case %d" % f["case"]},
-            key=f["name"] if f["name"] == "load:failure-below-dawn.toml-answered-from-the-left-over-dawnconfig" else None)
+             "error_text": f.get("error_text", ""), "how": how + "; exported case %d" % f["case"]})
 
 
 def spelling_family(ctx, srecs):
